@@ -154,10 +154,30 @@ Section EVAL.
 
   Definition size_value (n : nat) : prog dloc := new_value (ONum "ulong" (TI 64 false) (VI (Z.of_nat n))) false true.
 
+  (* the arithmetic constructors int(x), long(x), … : a fresh mutable number of the target type *)
+  Definition conversion_target (name : string) : option (string * nty) :=
+    if String.eqb name "double" then Some ("double", TF F64)
+    else if String.eqb name "int" then Some ("int", TI 32 true)
+    else if String.eqb name "float" then Some ("float", TF F32)
+    else if String.eqb name "long" then Some ("long", TI 64 true)
+    else if String.eqb name "size_t" then Some ("ulong", TI 64 false)
+    else None.
+
   Definition builtin_call (name : string) (args : list dloc) : prog dloc :=
     match args with
     | [a] =>
         o <- obj_of a ;;
+        match conversion_target name with
+        | Some (tn, tgt) =>
+            match o with
+            | Some (ONum _ t v) =>
+                match convert t v tgt with
+                | Some v' => new_value (ONum tn tgt v') false true
+                | None => unsup "conversion of an out-of-range floating-point value"
+                end
+            | _ => dispatch_error name
+            end
+        | None =>
         if String.eqb name "print" then s <- string_of_value a ;; Prim (POut (s ++ newline)) ;;; void_var
         else if String.eqb name "puts" then s <- string_of_value a ;; Prim (POut s) ;;; void_var
         else if String.eqb name "to_string" then s <- string_of_value a ;; new_value (OStr s) false true
@@ -237,6 +257,7 @@ Section EVAL.
           | _ => dispatch_error "what"
           end
         else dispatch_error name
+        end
     | [a; b] =>
         if String.eqb name "push_back" then
           oa <- obj_of a ;;
